@@ -19,7 +19,7 @@ from workrun import S, WorkerRun, deliveries, policy_us
 
 RULE = ("jobs = (N, failure bitmask, failure kind, recurring) × policy; exhaustive over bitmasks for N ≤ 3 (quick: N ≤ 2 "
         "exhaustive, larger sampled); a case = one job chain, distinct by (N, mask, kind, recurring, policy)")
-ASSUMPTIONS = ["in-memory broker (delivery of a due retry may lag by the consumer's delayed-queue refresh, ≤ 1 s)",
+ASSUMPTIONS = ["Redis / RabbitMQ runs use in-process fake servers (assumption sets R, A)", "in-memory broker (delivery of a due retry may lag by the consumer's delayed-queue refresh, ≤ 1 s)",
                "the retry policy is an input: the harness evaluates the same policy object as a pure function"]
 
 POLICIES = [{"kind": "const", "us": 0}, {"kind": "const", "us": 300_000}, {"kind": "linear", "us": 250_000},
@@ -95,6 +95,13 @@ def check_chains(run: WorkerRun, model: Model, res: Result, label: str) -> None:
         if not chain:
             res.bad("impl", "job was never executed", case={"label": label, "job": j, "policy": spec}, observed="no delivery")
             continue
+        if first_sched and final == "other":
+            # every observed delivery ended in a retry; the run's horizon was reached before the next attempt started —
+            # the message must then still be waiting in the broker (otherwise the retry was lost)
+            here = places.get(j["id"], [])
+            if [h["place"] for h in here] in (["delayed"], ["simple"], ["processing"]):
+                res.dist["chain-cut-by-horizon"] += 1
+                continue
         # the broker must agree with the final call (non-recurring jobs)
         if not recurring:
             here = places.get(j["id"], [])
@@ -126,11 +133,21 @@ def run(ctx) -> Result:
     for pi, spec in enumerate(POLICIES if deep else POLICIES[:3] + [POLICIES[3]]):
         rng = Rng(seed, f"c04/{pi}")
         jobs = make_jobs(rng, deep)
-        sc = {"jobs": jobs, "converter": rng.choice(["basic", "pydantic"]), "policy": spec, "horizon_s": 30.0,
+        sc = {"jobs": jobs, "converter": rng.choice(["basic", "pydantic"]), "policy": spec, "horizon_s": 90.0 if deep else 30.0,
               "tasks_limit": rng.choice([1000, 3, 1000])}
         r = vtime.run(lambda loop, s=sc: c02.run_scenario(s), budget=60_000_000)
         c02.check_run(r, model, res, f"chains-{spec['kind']}-{spec.get('us', '')}")
         check_chains(r, model, res, f"chains-{spec['kind']}-{spec.get('us', '')}")
+    # the same chains on the Redis and RabbitMQ brokers (in-process fake servers; back-off through the delayed set / queue)
+    for kind in ("redis", "rabbit"):
+        rng = Rng(seed, f"c04/{kind}")
+        jobs = make_jobs(rng, False)
+        jobs = jobs if deep else rng.sample(jobs, min(40, len(jobs)))
+        sc = {"jobs": jobs, "converter": "basic", "policy": POLICIES[1], "horizon_s": 40.0, "tasks_limit": 1000, "broker": kind}
+        r = vtime.run(lambda loop, s=sc: c02.run_scenario(s), budget=120_000_000)
+        c02.check_run(r, model, res, f"chains-{kind}")
+        check_chains(r, model, res, f"chains-{kind}")
+        res.dist[f"broker:{kind}"] += len(jobs)
     return res
 
 
